@@ -254,6 +254,42 @@ fn vp_native_tls_verification_matrix_body() {
             Err(e) => assert!(!expect, "the exchange failed although everything it needs is given: {} -> {}", ctx, e),
         }
     } } } }
+    // a proxy that is itself reached over TLS: two sessions, each verified against its own peer's name with the same flags and roots
+    for added in 0..2usize { for certs_flag in [false, true] { for names_flag in [false, true] { for (proxy_host, origin_host) in [("localhost", "localhost"), ("127.0.0.1", "localhost"), ("localhost", "127.0.0.1")] {
+        let log: Arc<Mutex<Vec<TlsHop>>> = Arc::new(Mutex::new(Vec::new()));
+        let proxy = serve_https_tunnelling_proxy_with(log.clone(), true);
+        let mut s = crate::Session::new();
+        s.proxy_settings(crate::ProxySettings::builder().https_proxy(Url::parse(&format!("https://{}:{}", proxy_host, proxy)).unwrap()).build());
+        let mut b = s.get(format!("https://{}:9443/", origin_host));
+        if let Some(c) = root(added) { b = b.add_root_certificate(c); }
+        if certs_flag { b = b.danger_accept_invalid_certs(true); }
+        if names_flag { b = b.danger_accept_invalid_hostnames(true); }
+        let res = b.send(); cases += 1;
+        let expect = certs_flag || (added == 1 && ((proxy_host == "localhost" && origin_host == "localhost") || names_flag));
+        let ctx = format!("https proxy {} / origin {} / root added {} / accept_invalid_certs {} / accept_invalid_hostnames {}", proxy_host, origin_host, ["none", "the valid certificate"][added], certs_flag, names_flag);
+        match res {
+            Ok(r) => { assert!(expect, "the exchange succeeded although it must not: {}", ctx); assert_eq!(r.text().unwrap(), "inside"); }
+            Err(e) => assert!(!expect, "the exchange failed although everything it needs is given: {} -> {}", ctx, e),
+        }
+    } } } }
+    // a redirect to another https origin is verified like a first request: the second hop's certificate does not cover 127.0.0.1
+    {
+        let l = TcpListener::bind("127.0.0.1:0").unwrap(); let rp = l.local_addr().unwrap().port(); drop(l);
+        let _ = rp;
+        let redirecting = { let _ = rustls::crypto::aws_lc_rs::default_provider().install_default();
+            let cfg = Arc::new(rustls::ServerConfig::builder().with_no_client_auth().with_single_cert(vec![rustls::pki_types::CertificateDer::from(pem_der(LOCALHOST_CERT))], rustls::pki_types::PrivateKeyDer::try_from(pem_der(LOCALHOST_KEY)).unwrap()).unwrap());
+            let l = TcpListener::bind("127.0.0.1:0").unwrap(); let port = l.local_addr().unwrap().port(); let target = ports[1];
+            std::thread::spawn(move || { for s in l.incoming() { let s = match s { Ok(s) => s, Err(_) => break }; let cfg = cfg.clone();
+                std::thread::spawn(move || { let mut tls = rustls::StreamOwned::new(rustls::ServerConnection::new(cfg).unwrap(), s);
+                    if let Some(raw) = read_request(&mut tls) { let req = decode_request(&raw);
+                        let loc = if req.target.contains("to-ip") { format!("https://127.0.0.1:{}/", target) } else { format!("https://localhost:{}/", target) };
+                        tls.write_all(&resp(302, Some(&loc), "")).ok(); tls.conn.send_close_notify(); tls.flush().ok(); } }); } });
+            port };
+        let s = { let mut s = direct(); s.add_root_certificate(crate::tls::Certificate::from_pem(LOCALHOST_CERT.as_bytes()).unwrap()); s };
+        let r = s.get(format!("https://localhost:{}/to-name", redirecting)).send().unwrap_or_else(|e| panic!("a redirect between two verified https origins: {}", e)); cases += 1;
+        assert_eq!(r.text().unwrap(), "tls-ok");
+        assert!(s.get(format!("https://localhost:{}/to-ip", redirecting)).send().is_err(), "a redirect led to an https origin whose certificate does not match its name, and the exchange succeeded"); cases += 1;
+    }
     // both checks are on by default: a stand-alone request, a fresh session
     assert!(crate::get(format!("https://localhost:{}/", ports[1])).proxy_settings(crate::ProxySettings::builder().build()).send().is_err(), "an unknown self-signed certificate was accepted by default"); cases += 1;
     // a flag or an added root affects exactly the session or request it was set on
